@@ -224,3 +224,144 @@ def guard_texts(p, canon):
         for e, tr in conjuncts(t, truth):
             out.append((canon(e), tr))
     return out
+
+
+# ---------------------------------------------------------------------------------------------------------------
+# canonical path signatures: compare a function with a reference implementation of the documented behaviour
+
+def _lit_text(e, truth, canon):
+    """Canonical text of an atomic literal; comparisons of linear expressions are moved to one side
+    (`a - n < m` and `n > a - m` are the same literal)."""
+    from .lin import linear
+
+    negate = {ast.Lt: ast.GtE, ast.GtE: ast.Lt, ast.Gt: ast.LtE, ast.LtE: ast.Gt, ast.Eq: ast.NotEq, ast.NotEq: ast.Eq, ast.Is: ast.IsNot, ast.IsNot: ast.Is, ast.In: ast.NotIn, ast.NotIn: ast.In}
+    if isinstance(e, ast.Compare) and len(e.ops) == 1:
+        op = type(e.ops[0])
+        if not truth and op in negate:
+            op, truth = negate[op], True
+        if op in (ast.Lt, ast.LtE, ast.Gt, ast.GtE, ast.Eq, ast.NotEq):
+            try:
+                cn = lambda x: canon(x)
+                import ast as _a
+                lhs = linear(_a.parse(cn(e.left), mode="eval").body)
+                rhs = linear(_a.parse(cn(e.comparators[0]), mode="eval").body)
+            except Exception:
+                lhs = rhs = None
+            if lhs is not None and rhs is not None:
+                d = dict(lhs)
+                for k, v in rhs.items():
+                    d[k] = d.get(k, 0) - v
+                d = {k: v for k, v in d.items() if v != 0}
+                if d:
+                    # orientation: the lexicographically first non-constant atom gets a positive coefficient
+                    keys = sorted(k for k in d if k != "1") or ["1"]
+                    if d[keys[0]] < 0:
+                        d = {k: -v for k, v in d.items()}
+                        op = {ast.Lt: ast.Gt, ast.Gt: ast.Lt, ast.LtE: ast.GtE, ast.GtE: ast.LtE}.get(op, op)
+                    sym = {ast.Lt: "<", ast.LtE: "<=", ast.Gt: ">", ast.GtE: ">=", ast.Eq: "==", ast.NotEq: "!="}[op]
+                    body = " + ".join(f"{v}*{k}" for k, v in sorted(d.items()))
+                    return f"{'' if truth else 'not '}({body} {sym} 0)"
+        e = ast.Compare(left=e.left, ops=[op()], comparators=e.comparators)
+    return f"{'' if truth else 'not '}{canon(e)}"
+
+
+def _const_truth(e):
+    """True / False if the truth value of e is known syntactically, else None."""
+    if isinstance(e, ast.Constant):
+        return bool(e.value)
+    if isinstance(e, ast.Compare) and len(e.ops) == 1 and isinstance(e.left, ast.Constant) and isinstance(e.comparators[0], ast.Constant):
+        a, b = e.left.value, e.comparators[0].value
+        op = e.ops[0]
+        if isinstance(op, ast.Is):
+            return a is b
+        if isinstance(op, ast.IsNot):
+            return a is not b
+        if isinstance(op, ast.Eq):
+            return a == b
+        if isinstance(op, ast.NotEq):
+            return a != b
+    return None
+
+
+def _expand(e, truth):
+    """Short-circuit expansion of a test into alternatives, each a list of atomic (expr, truth) literals."""
+    if isinstance(e, ast.UnaryOp) and isinstance(e.op, ast.Not):
+        return _expand(e.operand, not truth)
+    if isinstance(e, ast.BoolOp):
+        is_and = isinstance(e.op, ast.And)
+        if is_and == truth:
+            # all operands have `truth`: the cartesian combination of their expansions
+            alts = [[]]
+            for v in e.values:
+                alts = [a + b for a in alts for b in _expand(v, truth)]
+            return alts
+        # the first operand that decides: earlier ones have the opposite outcome
+        out = []
+        prefix = [[]]
+        for v in e.values:
+            for a in prefix:
+                for b in _expand(v, truth):
+                    out.append(a + b)
+            prefix = [a + b for a in prefix for b in _expand(v, not truth)]
+        return out
+    return [[(e, truth)]]
+
+
+def signatures(fnode, canon, track=(), abstract=None, drop=None, max_paths=200):
+    """Set of canonical path signatures of a function: (frozenset of atomic literals, tracked final values, returned
+    value, how the path ends).  `abstract(expr)` may replace sub-expressions (e.g. the result of a dispatched method)
+    by a symbol before canonicalisation; literals for which `drop(text)` is true are removed (dispatch tests)."""
+    out = set()
+    for pa in summarise(fnode, max_paths=max_paths):
+        alts = [[]]
+        for t, truth in pa.guards:
+            t = abstract(t) if abstract else t
+            alts = [a + b for a in alts for b in _expand(t, truth)]
+        for lits in alts:
+            texts = []
+            feasible = True
+            for e, tr in lits:
+                ct = _const_truth(e)
+                if ct is not None:
+                    if ct != tr:
+                        feasible = False
+                        break
+                    continue
+                texts.append(_lit_text(e, tr, canon))
+            if not feasible:
+                continue
+            # a literal and its negation: infeasible
+            if any(("not " + x) in texts for x in texts if not x.startswith("not ")):
+                continue
+            comp = {"==": "!=", "!=": "==", "<": ">=", ">=": "<", ">": "<=", "<=": ">"}
+            bad = False
+            for x in texts:
+                if x.startswith("(") and x.endswith(" 0)"):
+                    body, op = x[1:-3].rsplit(" ", 1)
+                    if op in comp and f"({body} {comp[op]} 0)" in texts:
+                        bad = True
+                    # x == 0 contradicts x < 0 and x > 0; x < 0 contradicts x > 0
+                    if op == "==" and (f"({body} < 0)" in texts or f"({body} > 0)" in texts):
+                        bad = True
+                    if op == "<" and f"({body} > 0)" in texts:
+                        bad = True
+            if bad:
+                continue
+            # implied literals carry no information: drop `!=`, `<=`, `>=` next to a stronger literal on the same form
+            def _implied(x):
+                if x.startswith("(") and x.endswith(" 0)"):
+                    body, op = x[1:-3].rsplit(" ", 1)
+                    if op == "!=" and (f"({body} < 0)" in texts or f"({body} > 0)" in texts):
+                        return True
+                    if op == "<=" and (f"({body} < 0)" in texts or f"({body} == 0)" in texts):
+                        return True
+                    if op == ">=" and (f"({body} > 0)" in texts or f"({body} == 0)" in texts):
+                        return True
+                return False
+            texts = [x for x in texts if not _implied(x)]
+            if drop:
+                texts = [x for x in texts if not drop(x)]
+            vals = tuple((k, canon(abstract(pa.env[k]) if abstract else pa.env[k]) if k in pa.env else None) for k in track)
+            ret = canon(abstract(pa.ret) if abstract else pa.ret) if pa.ret is not None else None
+            out.add((frozenset(texts), vals, ret, pa.end))
+    return out
